@@ -79,6 +79,29 @@ pub fn run(_params: &[i64], ops: &Rows, mon: &mut Mon) -> Rows {
                     out.push(vec![c1]); out.push(vec![c2]); out.push(all); out.push(rest1); out.push(rest2); out.push(vec![more as i64]);
                     continue;
                 }
+                4 => {
+                    // a BORROWED source (`&mut` iterator; method 2: a CIterator wrapped around it) fed into a closure that stops: the source must
+                    // be left with exactly the items never offered — nothing beyond the stopping item may be taken out of it, let alone destroyed
+                    drop(items);
+                    let _ = take_drops();
+                    let mut src = Scripted { script: vals.iter().map(|v| Some(*v)).collect(), pos: 0 };
+                    let mut store: Vec<Tok> = Vec::new();
+                    let mut n = 0usize;
+                    let mut f = |t: Tok| { store.push(t); n += 1; n != stop };
+                    let mut cb = OpaqueCallback::from(&mut f);
+                    cnt = match method {
+                        1 => { cb.extend(&mut src); -1 }
+                        2 => CIterator::new(&mut src).feed_into_mut(&mut cb) as i64,
+                        _ => (&mut src).feed_into_mut(&mut cb) as i64,
+                    };
+                    drop(cb);
+                    let d = take_drops();
+                    if !d.is_empty() { mon.fail(format!("case{} items {:?} were taken from a borrowed source and destroyed though never offered to the callback", k, d)); }
+                    let left: Vec<Tok> = src.collect();
+                    rest = left.iter().map(|t| t.val()).collect();
+                    got = store.iter().map(|t| t.val()).collect();
+                    drop(left);
+                }
                 1 => {
                     let mut store: Vec<Tok> = Vec::new();
                     cnt = feed(method, items, OpaqueCallback::from(&mut store));
@@ -98,7 +121,7 @@ pub fn run(_params: &[i64], ops: &Rows, mon: &mut Mon) -> Rows {
             if cnt >= 0 && cnt as usize != got.len() { mon.fail(format!("case{} count {} but {} items delivered", k, cnt, got.len())); }
             let mut all = got.clone(); all.extend(rest.iter());
             if all != vals { mon.fail(format!("case{} delivered+left {:?} != items {:?}", k, all, vals)); }
-            let want = if (kind == 0 || kind == 3) && stop > 0 { stop.min(vals.len()) } else { vals.len() };
+            let want = if (kind == 0 || kind == 3 || kind == 4) && stop > 0 { stop.min(vals.len()) } else { vals.len() };
             if got.len() != want { mon.fail(format!("case{} delivered {} items, expected {}", k, got.len(), want)); }
             out.push(vec![cnt]);
             out.push(got);
